@@ -14,7 +14,15 @@ macro_rules! warn { ($($t:tt)*) => { () } }
 #[allow(unused_macros)]
 macro_rules! error { ($($t:tt)*) => { () } }
 
+// format!: message texts are not part of any property; the macro resolves to a function
+// returning an unconstrained String (the text of the call stays in the extracted body)
+#[allow(unused_macros)]
+macro_rules! format { ($($t:tt)*) => { crate::verif_fmt() } }
+
 verus! {
+#[verifier::external_body]
+pub fn verif_fmt() -> String { String::new() }
+
 // the crate is checked for 64-bit targets (usize = u64), as built in this sandbox
 global size_of usize == 8;
 }
